@@ -35,6 +35,16 @@ T["C17"] = ("Every string of length <=5 (6) over an 11-symbol alphabet of ordina
             "Escape extents per ECMA-48 (introducer + 0x20-0x3F bytes + one final byte); what happens inside an extent is not constrained.")
 T["C19"] = ("All ordered pairs over 977 values (3 400 thorough) incl. same-text/different-format and same-display/different-run-boundary twins and bold=False variants: ==, !=, symmetry, hash agreement, dict lookups; each value against a pool of plain str (texts and terminal strings) in both operand orders; repr round trip through eval for every value with >=1 run and quote/backslash/newline texts x 24 attribute sets. 1.06 M / 17 M comparisons.",
             "No comparison with bytes.")
+T["C02"] = ("Explicit-state BFS over the real FullscreenWindow and a reference xterm model: from an entered window over a marker screen, every array of the alphabet (all rows over {a, red a} of length 0..w+1 for sizes up to 2x1/1x2 (2x2 thorough), sharper alphabets - empty, full-width, full-width with different formatting, over-wide - up to 3x3 (4x4)) x cursor positions, resizes to every other size with two junk fillings, exit from every state; after every render every screen cell, the cursor, scrollback, buffer, cursor visibility and SGR state are compared. The search runs to a fixpoint (no new canonical state), so it covers histories of any length over the alphabet. 1.8 M transitions quick.",
+            "Trusted: mc/term.py as xterm (pending wrap, BCE, DECSC, ?1049); blessed's terminfo sequences for TERM=xterm; states are deduplicated on a 64-bit hash of the full canonical state; resizes are taken only from a bounded set of source states.")
+T["C03"] = ("Explicit-state exploration of the decoder's own decision tree on the real get_key: every state (byte string whose proper prefixes all returned None) x every next byte x full in {False,True} x 3 naming modes, complete for ascii, latin-1 and utf-8 lead bytes < 0xF0 (0xF8 thorough), class representatives above; oracles O1-O7 against the tables as data, an independent strict UTF-8 recogniser and pinned documented names. Plus streams through the real Input find_key: every table sequence + every byte, every pair of table sequences, table sequence next to multi-byte characters, every Unicode scalar value. 1.7 M states / 16 M get_key calls quick.",
+            "Tables are reference data (a few documented names are pinned); the obsolete 5/6-byte lead subtrees are explored through boundary representatives of the 17 UTF-8 byte classes (soundness argument in DESIGN.md); one known finding.")
+T["C04"] = ("Explicit-state BFS over assignment histories on the real FSArray against a reference grid: from every small shape (0..2 rows x 0..2 columns, 1x3; constructor formatting) every region assignment a[r0:r1,c0:c1]=block (rows of every length 0..w+1 and past the array edge, str/FmtStr/FSArray/mixed, ragged blocks, wrong row counts), a[r0:r1]=block, a[r,c]=..., depth 2 (3 thorough) with deduplication on the rows' run structure; success/error boundary, atomicity of failures, and every read form in every distinct state. 1.5 M assignments quick.",
+            "An over-long row that only spills into blank space is unconstrained right of the region; any exception counts as 'an error'; negative indices and a[r]=v outside.")
+T["C13"] = ("Stateless search over all straight-line programs of length 1-2 (3 thorough, reduced alphabet) over 45 operation instances of the public API with every choice of pool operands, each executed under every observation schedule (which memo views are filled before which step); at the end every value's views must equal the snapshot taken at its creation in the reference execution and the views of a never-observed copy rebuilt from fresh run objects; plus every in-place mutation attempt on every run's attribute dict. 0.83 M executions quick.",
+            "Direct mutation of .chunks / Chunk internals is outside (not API).")
+T["C20"] = ("The decoder decision tree of C03 with the three naming modes evaluated in lock-step at every state (same kind of outcome, bytes mode returns exactly the bytes), every curses-table key is a curtsies-table key, and all 136 valid configuration key names map (through keymap) to names collected as producible from the complete trees; unbound key -> ().",
+            "R (producible names) is collected from the real decoder over the complete latin-1/utf-8 trees; upper-case C-A and 'M- ' are not checked.")
 BUILT = set(T)
 TECH = {
  "C02": "explicit-state BFS over render/resize histories, real window + reference terminal",
